@@ -9,10 +9,12 @@
      convert  runs, fmt, kind, ids, blocks, bad
      parse    text, kind, objs [{k, name, val, params, lines}]      (character-level grammar of parse_bf2_file)
    bad = 1: some byte of a returned payload is not the byte the attributed source line carries there.
-   NAMES_FILE: the library's hardware-id name table (data) as ndjson lines [id, chars].                      *)
-EXTENDS Bf2Import, Json, IOUtils
+     names    fwd [[name, id]] = items of the library's HWCID_MAP, rev [[id, name]] = items of REV_HWCID_MAP
+   Component kinds and filter terms are named by the PINNED table HwcidNames (spec/HwcidNames.tla), never by the
+   library's own reverse map; the "names" event compares the library's tables with it.                       *)
+EXTENDS Bf2Import, HwcidNames, Json, IOUtils
 Trace == ndJsonDeserialize(IOEnv.TRACE_FILE)
-Names == ndJsonDeserialize(IOEnv.NAMES_FILE)
+Names == HwcidNames
 VARIABLE i
 
 Dev(d, r) == [drop |-> d, retain |-> r]
@@ -63,7 +65,19 @@ ParseVerdict(ev) ==
     ELSE IF ev.kind # "ok" THEN "rejected-wellformed-text"
     ELSE IF ev.objs = p.objs THEN "ok" ELSE "parsed-objects-differ"
 
+\* the library's hardware-id tables: one id per name, one name per id, and exactly the pinned list
+NamesVerdict(ev) ==
+    LET P == {<<HwcidNames[j][1], HwcidNames[j][2]>> : j \in 1..Len(HwcidNames)}
+        F == {<<ev.fwd[j][2], ev.fwd[j][1]>> : j \in 1..Len(ev.fwd)}
+        R == {<<ev.rev[j][1], ev.rev[j][2]>> : j \in 1..Len(ev.rev)}
+    IN  IF \E a \in 1..Len(ev.fwd), b \in 1..Len(ev.fwd) : a # b /\ ev.fwd[a][2] = ev.fwd[b][2] THEN "hwcid-map-two-names-for-one-id"
+        ELSE IF \E a \in 1..Len(ev.fwd), b \in 1..Len(ev.fwd) : a # b /\ ev.fwd[a][1] = ev.fwd[b][1] THEN "hwcid-map-name-twice"
+        ELSE IF F # P THEN "hwcid-map-differs-from-pinned-list"
+        ELSE IF R # P \/ Len(ev.rev) # Cardinality(P) THEN "rev-hwcid-map-differs-from-pinned-list"
+        ELSE "ok"
+
 Verdict(ev) == IF ev.op = "import" THEN ImportVerdict(ev)
+               ELSE IF ev.op = "names" THEN NamesVerdict(ev)
                ELSE IF ev.op = "parse" THEN ParseVerdict(ev)
                ELSE IF ev.op = "unpack" THEN UnpackVerdict(ev)
                ELSE IF ev.op = "convert" THEN ConvertVerdict(ev)
